@@ -142,9 +142,33 @@ func (c *cyTr) exec(stmts []ast.Stmt, st cyState, ind string) string {
 			return c.exec(append([]ast.Stmt{switchToIf(v)}, rest...), st, ind)
 		case *ast.BlockStmt:
 			return c.exec(append(append([]ast.Stmt{}, v.List...), rest...), st, ind)
+		case *ast.SelectStmt:
+			// v1: `select { case op := <-r.buffer: BODY  default: break Fill }` - for a present operation the receive is
+			// taken (the operation leaves the channel: bufCall 2); the default is the exit for an exhausted buffer
+			var body []ast.Stmt
+			okShape := len(v.Body.List) == 2
+			for _, cl := range v.Body.List {
+				cc := cl.(*ast.CommClause)
+				if cc.Comm == nil {
+					if len(cc.Body) != 1 || !strings.HasPrefix(c.p.str(cc.Body[0]), "break") {
+						okShape = false
+					}
+				} else if c.p.str(cc.Comm) == "op := <-r.buffer" {
+					body = cc.Body
+				} else {
+					okShape = false
+				}
+			}
+			if !okShape || body == nil {
+				c.fail("select shape")
+			}
+			st.bufCall = 2
+			return c.exec(append(append([]ast.Stmt{}, body...), rest...), st, ind)
 		case *ast.AssignStmt:
 			txt := c.p.str(v)
 			switch {
+			case txt == "batch := batches[watcher]":
+				continue // described by the input blen (a missing entry is a nil batch of length 0)
 			case txt == "watcher := op.Watcher()":
 				continue
 			case txt == "batch, ok := batches[watcher]":
@@ -180,6 +204,12 @@ func (c *cyTr) exec(stmts []ast.Stmt, st cyState, ind string) string {
 			case "r.processBatch(watcher, []Operation{op})":
 				st.raisedLen = "1"
 				continue
+			case "flush(watcher, batch)":
+				st.raisedLen = st.blen
+				continue
+			case "flush(watcher, []IOperation{op})":
+				st.raisedLen = "1"
+				continue
 			}
 			c.fail("call %s", c.p.str(v.X))
 		default:
@@ -189,9 +219,49 @@ func (c *cyTr) exec(stmts []ast.Stmt, st cyState, ind string) string {
 	return c.out(st, 0, ind)
 }
 
-func transCycle(v2 *pkg) string {
+// v1: the labelled loop `Fill: for { ... }` of the flush arm
+func transCycleV1(v1 *pkg, sb *strings.Builder) {
+	fd := v1.fn("batcher.go", "Batcher", "Start")
+	var body []ast.Stmt
+	if fd != nil {
+		ast.Inspect(fd.Body, func(n ast.Node) bool {
+			if ls, ok := n.(*ast.LabeledStmt); ok && ls.Label.Name == "Fill" {
+				if f, ok := ls.Stmt.(*ast.ForStmt); ok && f.Init == nil && f.Cond == nil && f.Post == nil {
+					body = f.Body.List
+				}
+			}
+			return body == nil
+		})
+	}
+	if body == nil {
+		sb.WriteString("-- REFUSED cycleBodyV1: the cycle loop was not found\n\n")
+		return
+	}
+	c := &cyTr{p: v1}
+	text, why := func() (out, why string) {
+		defer func() {
+			if r := recover(); r != nil {
+				if rf, ok := r.(cyRefuse); ok {
+					out, why = "", rf.why
+					return
+				}
+				panic(r)
+			}
+		}()
+		st := cyState{consumed: "i.consumed", blen: "i.blen", raisedLen: "0", storeLen: "0"}
+		return c.exec(body, st, "  "), ""
+	}()
+	if why != "" {
+		sb.WriteString(fmt.Sprintf("-- REFUSED cycleBodyV1: %s\n\n", why))
+		return
+	}
+	sb.WriteString("/-- one iteration of v1's cycle loop for a present operation, translated from batcher.go -/\ndef cycleBodyV1 (i : CyIn) : CyOut :=\n" + text + "\n")
+}
+
+func transCycle(v1, v2 *pkg) string {
 	var sb strings.Builder
-	sb.WriteString("/- GENERATED by /verif/extract (transcycle.go) from the flush-cycle loop of /repo/v2/batcher.go on every run. Do not edit. -/\nimport GoBatcher.Model.CySem\nnamespace GoBatcher.TransCycle\nopen GoBatcher GoBatcher.GoSem GoBatcher.CySem\n\n")
+	sb.WriteString("/- GENERATED by /verif/extract (transcycle.go) from the flush-cycle loops of /repo/batcher.go and /repo/v2/batcher.go on every run. Do not edit. -/\nimport GoBatcher.Model.CySem\nnamespace GoBatcher.TransCycle\nopen GoBatcher GoBatcher.GoSem GoBatcher.CySem\n\n")
+	transCycleV1(v1, &sb)
 	fd := v2.fn("batcher.go", "batcher", "Start")
 	var body []ast.Stmt
 	if fd != nil {
